@@ -14,7 +14,26 @@ import (
 // so it is only comparable within one process (it never enters the event log).
 func Image(root interface{}) (hash uint64, nodes int) {
 	w := &imager{seen: map[uintptr]bool{}}
-	w.walk(reflect.ValueOf(root), 0)
+	v := reflect.ValueOf(root)
+	// The root object's own integer and boolean fields (usage counters, epochs,
+	// flags kept next to the tree) are not part of the node tree: a query that
+	// counts itself atomically leaves the tree bit-identical. Everything else -
+	// pointers, slices, arrays, floats (the bound), nested structs, and every
+	// field of every node - is hashed.
+	if v.Kind() == reflect.Ptr && !v.IsNil() && v.Elem().Kind() == reflect.Struct {
+		st := v.Elem()
+		w.nodes++
+		for i := 0; i < st.NumField(); i++ {
+			switch st.Field(i).Kind() {
+			case reflect.Bool, reflect.Int, reflect.Int8, reflect.Int16, reflect.Int32, reflect.Int64,
+				reflect.Uint, reflect.Uint8, reflect.Uint16, reflect.Uint32, reflect.Uint64, reflect.Uintptr:
+				continue
+			}
+			w.walk(st.Field(i), 1)
+		}
+		return w.h, w.nodes
+	}
+	w.walk(v, 0)
 	return w.h, w.nodes
 }
 
